@@ -138,7 +138,7 @@ class RenderContext:
             package_suffix = ".".join(self.output_package_name.split(".")[1:])  # "business" from "pyapis.business"
 
             # Check if this is an incomplete internal module path
-            if package_suffix and logical_module.startswith(f"{package_suffix}."):
+            if self._is_incomplete_internal_path(logical_module, package_suffix):
                 # This is an incomplete path like "business.models.agent"
                 # Convert to complete path like "pyapis.business.models.agent"
                 logical_module = f"{root_package}.{logical_module}"
@@ -271,6 +271,21 @@ class RenderContext:
             # If name is None, it's a plain import like 'import os'
             self.import_collector.add_plain_import(module=logical_module)
 
+    def _is_incomplete_internal_path(self, logical_module: str, package_suffix: str) -> bool:
+        """True if `logical_module` lacks the root package ("business.models.x" for output package "pyapis.business").
+
+        Paths that are already complete must be left alone even when they start with the same words: modules of the
+        output package itself ("dup.dup.models.x" for package "dup.dup"), of the core package ("business.core.x") and
+        of the standard library ("collections.abc" for package "x.collections").
+        """
+        if not package_suffix or not logical_module.startswith(f"{package_suffix}."):
+            return False
+        if logical_module.startswith(f"{self.output_package_name}."):
+            return False
+        if logical_module == self.core_package_name or logical_module.startswith(f"{self.core_package_name}."):
+            return False
+        return logical_module.split(".")[0] not in sys.stdlib_module_names
+
     def mark_generated_module(self, abs_module_path: str) -> None:
         """
         Mark a module as generated in this run.
@@ -300,7 +315,7 @@ class RenderContext:
             package_suffix = ".".join(self.output_package_name.split(".")[1:])  # "business" from "pyapis.business"
 
             # Check if this is an incomplete internal module path
-            if package_suffix and logical_module.startswith(f"{package_suffix}."):
+            if self._is_incomplete_internal_path(logical_module, package_suffix):
                 # This is an incomplete path like "business.models.agent"
                 # Convert to complete path like "pyapis.business.models.agent"
                 logical_module = f"{root_package}.{logical_module}"
